@@ -22,7 +22,8 @@
 //                     rk  T& closure (op) const T& closure     rc  T& closure (op)= value  (read the referents)
 //                     kv  const T& closure (op) value
 //                     vw  value<ieee> (op) value<!ieee>        wv  value<!ieee> (op) value<ieee>   (mixed flags)
-// -DDRV_PART=1 builds only the Annex G modes (classes, extreme, detail), -DDRV_PART=2 only exact, -DDRV_PART=3 only fn (parallel
+//   driver acc              cases of specs/ComplexAcc.tla on stdin: general finite operands as sign / integer limbs / exponent
+// -DDRV_PART=1 builds only the Annex G modes (classes, extreme, detail), -DDRV_PART=2 only exact, -DDRV_PART=3 only fn, 4 only acc (parallel
 // compilation); without it everything is in one binary.
 #include <xtl/xcomplex.hpp>
 #include "vjson.hpp"
@@ -323,7 +324,7 @@ static int extreme()
 }
 
 #endif
-#if PART(2) || PART(3)
+#if PART(2) || PART(3) || PART(4)
 // ---------------------------------------------------------------- exact dyadic arithmetic (specs/ComplexExact.tla)
 
 template <class T> static std::string fp2(T re, T im) { return "[" + fp(re) + "," + fp(im) + "]"; }
@@ -347,6 +348,16 @@ struct grouped
 };
 
 #endif
+#if PART(2) || PART(4)
+template <class A, class Bt> static auto apply_op(int op, const A& a, const Bt& b)
+{
+    switch (op) { case 0: return a + b; case 1: return a - b; case 2: return a * b; default: return a / b; }
+}
+template <class A, class Bt> static void apply_cmp(int op, A& a, const Bt& b)
+{
+    switch (op) { case 0: a += b; break; case 1: a -= b; break; case 2: a *= b; break; default: a /= b; break; }
+}
+#endif
 #if PART(2)
 // the scalar operand y * 2^k as an object of the C++ type named st, handed to f
 template <class T, class F> static void with_scalar(const std::string& st, long long y, int k, F&& f)
@@ -358,15 +369,6 @@ template <class T, class F> static void with_scalar(const std::string& st, long 
     else if (st == "double") { const double s = std::ldexp(double(y), k); f(s); }
     else if (st == "ldouble") { const long double s = std::ldexp((long double)y, k); f(s); }
     else { std::fprintf(stderr, "unknown scalar type %s\n", st.c_str()); std::exit(3); }
-}
-
-template <class A, class Bt> static auto apply_op(int op, const A& a, const Bt& b)
-{
-    switch (op) { case 0: return a + b; case 1: return a - b; case 2: return a * b; default: return a / b; }
-}
-template <class A, class Bt> static void apply_cmp(int op, A& a, const Bt& b)
-{
-    switch (op) { case 0: a += b; break; case 1: a -= b; break; case 2: a *= b; break; default: a /= b; break; }
 }
 
 template <class T, bool B> static std::string exact_case(const vj::value& ev)
@@ -431,7 +433,7 @@ template <class T, bool B> static std::string exact_case(const vj::value& ev)
 }
 
 #endif
-#if PART(2) || PART(3)
+#if PART(2) || PART(3) || PART(4)
 template <class F> static int table_mode(F&& row)
 {
     std::string line;
@@ -461,6 +463,124 @@ static std::string exact_row(const vj::value& ev)
     return ",\"r\":" + r;
 }
 
+#endif
+#if PART(4)
+// ---------------------------------------------------------------- general finite operands (specs/ComplexAcc.tla)
+// A number is {"k":"num","s":sign,"n":[base-4096 limbs of the odd integer N, least significant first],"e":e} = (-1)^s N 2^e,
+// or {"k":"zero"|"inf"|"nan","s":sign,"n":[0],"e":0}.  The harness builds the operands from these records, prints them back
+// ("in": what it built) and prints every result in the same form; it computes nothing else.
+static long double num_of(const vj::value& d)
+{
+    const std::string& k = d.str("k");
+    const bool neg = d.num("s") != 0;
+    if (k == "zero") return neg ? -0.0L : 0.0L;
+    if (k != "num") { std::fprintf(stderr, "operand kind %s\n", k.c_str()); std::exit(3); }
+    unsigned long long N = 0;
+    const auto& a = d.at("n").a;
+    if (a.size() > 6) { std::fprintf(stderr, "too many limbs\n"); std::exit(3); }
+    for (size_t i = a.size(); i-- > 0;) N = (N << 12) | (unsigned long long)a[i].i;
+    long double v = std::ldexp((long double)N, int(d.num("e")));      // exact: N < 2^64
+    return neg ? -v : v;
+}
+static std::string num_json(long double x)
+{
+    const int s = std::signbit(x) ? 1 : 0;
+    if (std::isnan(x)) return "{\"k\":\"nan\",\"s\":0,\"n\":[0],\"e\":0}";
+    if (std::isinf(x)) return "{\"k\":\"inf\",\"s\":" + std::to_string(s) + ",\"n\":[0],\"e\":0}";
+    if (x == 0) return "{\"k\":\"zero\",\"s\":" + std::to_string(s) + ",\"n\":[0],\"e\":0}";
+    int E = 0;
+    long double g = std::frexp(std::fabs(x), &E);                     // [0.5, 1)
+    unsigned long long N = (unsigned long long)std::ldexp(g, 64);     // exact
+    int e = E - 64;
+    while ((N & 1) == 0) { N >>= 1; ++e; }
+    std::string o = "{\"k\":\"num\",\"s\":" + std::to_string(s) + ",\"n\":[";
+    bool first = true;
+    while (N) { o += (first ? "" : ",") + std::to_string(N & 4095); N >>= 12; first = false; }
+    return o + "],\"e\":" + std::to_string(e) + "}";
+}
+template <class T> static std::string num2(T re, T im) { return "[" + num_json((long double)re) + "," + num_json((long double)im) + "]"; }
+
+template <class T, class F> static void with_scalar_value(const std::string& st, long double v, F&& f)
+{
+    if (st == "T") { const T s = T(v); f(s); }
+    else if (st == "int") { const int s = int(v); f(s); }
+    else if (st == "long") { const long s = long(v); f(s); }
+    else if (st == "float") { const float s = float(v); f(s); }
+    else if (st == "double") { const double s = double(v); f(s); }
+    else if (st == "ldouble") { const long double s = v; f(s); }
+    else { std::fprintf(stderr, "unknown scalar type %s\n", st.c_str()); std::exit(3); }
+}
+
+template <class T, bool B> static std::string acc_case(const vj::value& ev)
+{
+    using V = xtl::xcomplex<T, T, B>;
+    using W = xtl::xcomplex<T, T, !B>;
+    using R = xtl::xcomplex<T&, T&, B>;
+    using K = xtl::xcomplex<const T&, const T&, B>;
+    const std::string& f = ev.str("f");
+    static const char* OPS[4] = {"add", "sub", "mul", "div"};
+    int op = -1, shape = -1;
+    for (int i = 0; i < 4; ++i)
+    {
+        if (f == OPS[i]) { op = i; shape = 0; }
+        if (f == std::string(OPS[i]) + "s") { op = i; shape = 1; }
+        if (f == std::string("s") + OPS[i]) { op = i; shape = 2; }
+    }
+    if (op < 0) { std::fprintf(stderr, "unknown form %s\n", f.c_str()); std::exit(3); }
+    const T a = T(num_of(ev.at("x").a[0])), b = T(num_of(ev.at("x").a[1]));
+    T a1 = a, b1 = b;
+    V vx(a, b); W wx(a, b); R rx(a1, b1); K kx(a1, b1);
+    grouped G;
+    auto put = [&G](const char* v, const std::string& r) { G.put(v, r); };
+    std::string in = "[" + num2(a, b) + ",";
+    if (shape == 0)
+    {
+        const T c = T(num_of(ev.at("y").a[0])), d = T(num_of(ev.at("y").a[1]));
+        T c1 = c, d1 = d;
+        in += num2(c, d) + "]";
+        V vy(c, d); W wy(c, d); K ky(c1, d1);
+        { auto z = apply_op(op, vx, vy); put("vv", num2(z.real(), z.imag())); }
+        { V t(vx); apply_cmp(op, t, vy); put("vc", num2(t.real(), t.imag())); }
+        { auto z = apply_op(op, rx, ky); put("rk", num2(z.real(), z.imag())); }
+        { auto z = apply_op(op, kx, vy); put("kv", num2(z.real(), z.imag())); }
+        { auto z = apply_op(op, vx, wy); put("vw", num2(z.real(), z.imag())); }
+        { auto z = apply_op(op, wx, vy); put("wv", num2(z.real(), z.imag())); }
+        { W t(wx); apply_cmp(op, t, ky); put("wc", num2(t.real(), t.imag())); }
+        { apply_cmp(op, rx, vy); put("rc", num2(a1, b1)); }
+    }
+    else
+    {
+        with_scalar_value<T>(ev.str("st"), num_of(ev.at("y").a[0]), [&](const auto& s) {
+            in += "[" + num_json((long double)s) + "," + num_json(0.0L) + "]]";
+            if (shape == 1)
+            {
+                { auto z = apply_op(op, vx, s); put("vv", num2(z.real(), z.imag())); }
+                { V t(vx); apply_cmp(op, t, s); put("vc", num2(t.real(), t.imag())); }
+                { auto z = apply_op(op, rx, s); put("rk", num2(z.real(), z.imag())); }
+                { auto z = apply_op(op, kx, s); put("kv", num2(z.real(), z.imag())); }
+                { auto z = apply_op(op, wx, s); put("wv", num2(z.real(), z.imag())); }
+                { apply_cmp(op, rx, s); put("rc", num2(a1, b1)); }
+            }
+            else
+            {
+                { auto z = apply_op(op, s, vx); put("vv", num2(z.real(), z.imag())); }
+                { auto z = apply_op(op, s, rx); put("rk", num2(z.real(), z.imag())); }
+                { auto z = apply_op(op, s, kx); put("kv", num2(z.real(), z.imag())); }
+                { auto z = apply_op(op, s, wx); put("wv", num2(z.real(), z.imag())); }
+            }
+        });
+    }
+    return ",\"in\":" + in + ",\"r\":" + G.json();
+}
+static std::string acc_row(const vj::value& ev)
+{
+    const std::string& t = ev.str("t");
+    const bool b = ev.at("b").b;
+    if (t == "float") return b ? acc_case<float, true>(ev) : acc_case<float, false>(ev);
+    if (t == "double") return b ? acc_case<double, true>(ev) : acc_case<double, false>(ev);
+    std::fprintf(stderr, "unknown type %s\n", t.c_str());
+    std::exit(3);
+}
 #endif
 #if PART(3)
 // ---------------------------------------------------------------- functions equal to std::complex's (specs/ComplexFn.tla)
@@ -562,6 +682,9 @@ int main(int argc, char** argv)
 #endif
 #if PART(3)
     if (mode == "fn") return table_mode(fn_row);
+#endif
+#if PART(4)
+    if (mode == "acc") return table_mode(acc_row);
 #endif
 #if PART(1)
     if (mode == "classes" && argc >= 3) return classes(std::strtoull(argv[2], nullptr, 10));
